@@ -180,6 +180,15 @@ static inline void bg_it_u__ctor(bg_it *it) {
   it->bound = 0;
   it->poisoned = 1;
 }
+/* value-initialised iterator: may be compared with another value-initialised one (C++14) */
+#define BG_IT_SINGULAR_IDX (~(bg_size)0)
+static inline void bg_it_u__ctor_value(bg_it *it) {
+  it->r.len = it->r.nP = it->r.nQ = it->r.up = 0;
+  it->cur = 0;
+  it->idx = BG_IT_SINGULAR_IDX;
+  it->bound = 0;
+  it->poisoned = 0;
+}
 static inline const VertexIndex *bg_it_u__deref(const bg_it *it) {
   BG_PRE(!it->poisoned, "dereference invalidated list iterator");
   BG_PRE(it->r.len > 0, "dereference end() list iterator");
@@ -392,6 +401,7 @@ static inline void bg_ghost_frontier_start(const bg_adj *a) {
   bg_ghost_frontier.F = 0;
   bg_ghost_frontier.below = 0;
   bg_ghost_frontier.belowUp = 0;
+  bg_ghost_frontier.rank = 0;
   if (a->n == 0)
     BG_ASSUME(a->r.total == 0 && a->r.totalUp == 0); /* no rows, no entries */
 }
@@ -422,6 +432,22 @@ static inline void bg_ghost_frontier_advance(const bg_adj *a, bg_size i) {
   BG_ASSUME(bg_ghost_frontier.below <= a->r.total && bg_ghost_frontier.belowUp <= a->r.totalUp);
   if (bg_ghost_frontier.F == a->n)
     BG_ASSUME(bg_ghost_frontier.below == a->r.total && bg_ghost_frontier.belowUp == a->r.totalUp);
+}
+
+/* ghost lemma: when the frontier stands at the last row, below + that row is everything */
+static inline void bg_ghost_frontier_last(const bg_adj *a) {
+  if (bg_ghost_frontier.a == a && bg_ghost_frontier.F + 1 == a->n) {
+    bg_size i = bg_ghost_frontier.F;
+    if (i == G_P)
+      BG_ASSUME(bg_ghost_frontier.below + a->rowP->c.len == a->r.total &&
+                bg_ghost_frontier.belowUp + a->rowP->c.up == a->r.totalUp);
+    else if (i == G_Q)
+      BG_ASSUME(bg_ghost_frontier.below + a->rowQ->c.len == a->r.total &&
+                bg_ghost_frontier.belowUp + a->rowQ->c.up == a->r.totalUp);
+    else if (bg_scratch_row.valid && bg_scratch_row.from == a && bg_scratch_row.row.idx == i)
+      BG_ASSUME(bg_ghost_frontier.below + bg_scratch_row.row.c.len == a->r.total &&
+                bg_ghost_frontier.belowUp + bg_scratch_row.row.c.up == a->r.totalUp);
+  }
 }
 
 /* operator[] const */
@@ -693,6 +719,18 @@ static inline bg_vec_sz *bg_mat_sz__index(bg_mat_sz *a, bg_size i) {
 static inline void bg_ghost_invalidate(void) {
   bg_ghost_scratch_reset();
   bg_ghost_frontier.a = 0;
+  BG_CAT(bg_scratch_val_, BG_L).valid = 0;
+  BG_CAT(bg_scratch_val_, BG_L).out = 0;
+}
+/* variants for callees that cannot mutate any graph: the caller's frontier stays attached */
+static inline void bg_ghost_reset_keep_frontier(void) {
+  bg_ghost_scratch_reset();
+  BG_CAT(BG_CAT(bg_map_, BG_L), __checkin)();
+  BG_CAT(bg_scratch_val_, BG_L).valid = 0;
+  BG_CAT(bg_scratch_val_, BG_L).out = 0;
+}
+static inline void bg_ghost_invalidate_keep_frontier(void) {
+  bg_ghost_scratch_reset();
   BG_CAT(bg_scratch_val_, BG_L).valid = 0;
   BG_CAT(bg_scratch_val_, BG_L).out = 0;
 }
